@@ -16,6 +16,7 @@ from bibtexparser.model import (
     String,
 )
 
+from .. import bigdocs
 from ..canon import canon
 from ..engine import seq_iter, seq_shards
 
@@ -52,6 +53,7 @@ def bounds(tier):
 def shards(tier):
     out = [("rt", s) for s in seq_shards(SIGMA, 3 if tier == "quick" else 4, prefix_len=2 if tier == "quick" else 2)]
     out += [("state", 0), ("scope", 0), ("contain", 0)]
+    out += [("big", n) for n in (bigdocs.SIZES_QUICK if tier == "quick" else bigdocs.SIZES_THOROUGH)]
     return out
 
 
@@ -302,6 +304,48 @@ def check_scope(acc):
                 acc.violation({"oracle": "custom_converter_applied_to_fields_nameparts_strings"}, {"case": case, "observed": list(got), "expected": list(exp)})
 
 
+def check_big(n, acc):
+    """A library of many blocks: every block comes back, in order, with its key, type, raw text and start line."""
+    import bibtexparser
+
+    text, _ = bigdocs.document(n, 1)
+    for which in ("enc", "dec", "enc+dec"):
+        for ip in (True, False):
+            lib = bibtexparser.parse_string(text)
+            before = [(type(b).__name__, getattr(b, "key", None), b.start_line, b.raw, [f.key for f in getattr(b, "fields", [])]) for b in lib.blocks]
+            vals = [[f.value for f in b.fields] for b in lib.blocks if isinstance(b, Entry)]
+            case = {"big": n, "middleware": which, "inplace": ip}
+            acc.trace()
+            acc.case(nontrivial_key=("big", n, which, ip))
+            try:
+                out = lib
+                if "enc" in which:
+                    out = LatexEncodingMiddleware(allow_inplace_modification=ip).transform(out)
+                if "dec" in which:
+                    out = LatexDecodingMiddleware(allow_inplace_modification=ip).transform(out)
+            except Exception as ex:
+                acc.violation({"oracle": "no_exception", "exception": type(ex).__name__}, {"case": case, "observed": repr(ex), "expected": "no exception"}, size=n)
+                continue
+            after = [(type(b).__name__, getattr(b, "key", None), b.start_line, b.raw, [f.key for f in getattr(b, "fields", [])]) for b in out.blocks]
+            acc.step(("big", n), which, len(after))
+            if after != before:
+                acc.violation(
+                    {"oracle": "only_text_values_change", "block": "big library", "what": "block_count" if len(after) != len(before) else "untouched_parts"},
+                    {"case": case, "observed": f"{len(after)} blocks", "expected": f"{len(before)} blocks with the same keys, types, raw texts and start lines"},
+                    size=n,
+                )
+                continue
+            if which == "enc+dec":
+                vals2 = [[f.value for f in b.fields] for b in out.blocks if isinstance(b, Entry)]
+                # (values holding characters the property excludes - '"', '^', ligature sequences - are not compared)
+                dom = lambda v: isinstance(v, str) and not any(x in v for x in ('"', "^", "--", "``", "''", "!`", "?`"))
+                vals2 = [[a for a, b in zip(x, y) if dom(b)] for x, y in zip(vals2, vals)]
+                vals = [[b for b in y if dom(b)] for y in vals]
+                if vals2 != vals:
+                    i = next(i for i, (a, b) in enumerate(zip(vals2, vals)) if a != b)
+                    acc.violation({"oracle": "roundtrip", "cause": "big library"}, {"case": case, "observed": vals2[i], "expected": vals[i]}, size=n)
+
+
 def check_contain(acc):
     for enc in (True, False):
         for ip in (True, False):
@@ -360,6 +404,8 @@ def run_shard(shard, tier, acc):
             check_text(toks, acc)
     elif shard[0] == "state":
         check_state(acc)
+    elif shard[0] == "big":
+        check_big(shard[1], acc)
     elif shard[0] == "scope":
         check_scope(acc)
     else:
@@ -371,6 +417,8 @@ def replay(case, acc):
         check_text(tuple(case["tokens"]), acc, opts=[tuple(case["options"])], fresh=True, case=case)
     elif "state_text" in case:
         check_state(acc)
+    elif "big" in case:
+        check_big(case["big"], acc)
     elif "scope" in case:
         check_scope(acc)
     else:
